@@ -160,35 +160,51 @@ func callValidate(p reflect.Value) (err error) {
 // GenParamChange draws one governance parameter change that every validation layer accepts on the
 // current state; nil if the drawn candidate is refused (that is the validation working).
 func GenParamChange(h *History, g *G) *EnvAction {
+	return GenParamChangeFor(h, g, paramModules[g.Pick("pg/module", len(paramModules))])
+}
+
+// GenParamChangeFor: the proposal's Params object is built either from the module's current parameters or – as
+// real proposals are, which are written some blocks before they execute – from a snapshot of them taken at an
+// earlier block of this history (so that any bookkeeping a module keeps inside its Params object is stale in it).
+func GenParamChangeFor(h *History, g *G, module string) *EnvAction {
 	w := h.W
-	module := paramModules[g.Pick("pg/module", len(paramModules))]
 	ctx := w.ReadCtx()
 	cur := moduleParams(w, ctx, module)
 	if cur == nil {
 		return nil
 	}
-	// a settable deep copy through the proto codec
 	pv := reflect.New(reflect.TypeOf(cur))
 	pv.Elem().Set(reflect.ValueOf(cur))
-	if pm, ok := pv.Interface().(gogoproto.Message); ok {
-		// deep copy through the wire format (slices and pointers inside Params must not alias keeper memory)
-		bz, err := gogoproto.Marshal(pm)
-		if err != nil {
-			return nil
-		}
-		np := reflect.New(reflect.TypeOf(cur))
-		if err := gogoproto.Unmarshal(bz, np.Interface().(gogoproto.Message)); err != nil {
-			return nil
-		}
-		pv = np
+	pm, ok := pv.Interface().(gogoproto.Message)
+	if !ok {
+		return nil
 	}
+	// deep copy through the wire format (slices and pointers inside Params must not alias keeper memory)
+	bz, err := gogoproto.Marshal(pm)
+	if err != nil {
+		return nil
+	}
+	key := "params-snapshots/" + module
+	snaps, _ := h.Ext[key].([][]byte)
+	snaps = append(snaps, bz)
+	h.Ext[key] = snaps
+	from := bz
+	if len(snaps) > 1 && g.Bool("pg/stale?") {
+		from = snaps[g.Pick("pg/stale", len(snaps))]
+		h.Labels["param-change-from-stale-snapshot"]++
+	}
+	np := reflect.New(reflect.TypeOf(cur))
+	if err := gogoproto.Unmarshal(from, np.Interface().(gogoproto.Message)); err != nil {
+		return nil
+	}
+	pv = np
 	var leaves []paramLeaf
 	collectLeaves(pv.Elem(), module, 0, &leaves)
 	if len(leaves) == 0 {
 		return nil
 	}
-	n := 1 + g.Int("pg/two", 0, 3)/3
-	var desc []string
+	n := []int{0, 1, 1, 1, 2}[g.Pick("pg/nleaves", 5)] // 0 = the snapshot is resubmitted as it is
+	desc := []string{module + " params"}
 	for i := 0; i < n; i++ {
 		l := leaves[g.Pick("pg/leaf", len(leaves))]
 		desc = append(desc, l.path+"="+setBoundary(g, l))
@@ -386,4 +402,25 @@ func GenGovKnob(h *History, g *G) *EnvAction {
 	e := w.GovEnv(msg)
 	e.Args["what"] = what
 	return &e
+}
+
+// recordParamSnapshot stores the module's current Params (wire format) in the history's snapshot list.
+func recordParamSnapshot(h *History, module string) {
+	cur := moduleParams(h.W, h.W.ReadCtx(), module)
+	if cur == nil {
+		return
+	}
+	pv := reflect.New(reflect.TypeOf(cur))
+	pv.Elem().Set(reflect.ValueOf(cur))
+	pm, ok := pv.Interface().(gogoproto.Message)
+	if !ok {
+		return
+	}
+	bz, err := gogoproto.Marshal(pm)
+	if err != nil {
+		return
+	}
+	key := "params-snapshots/" + module
+	snaps, _ := h.Ext[key].([][]byte)
+	h.Ext[key] = append(snaps, bz)
 }
